@@ -2348,12 +2348,7 @@ int parse_instruction_riscv(AsmContext *asm_context, char *instr)
 
           if (check_range(asm_context, "Immediate", operands[0].value, -512, 511) == -1) { return -1; }
 
-          immediate = 0;
-
-          if (asm_context->pass == 1)
-          {
-            immediate = permutate_16(operands[0].value, RiscvPerm::imm9_46875, false);
-          }
+          immediate = permutate_16(operands[0].value, RiscvPerm::imm9_46875, false);
 
           if (immediate < 0)
           {
